@@ -295,6 +295,62 @@ def w_with_empty(k: int, kind: int, days: int, tdk: int) -> str:
     return _with_empty(rt.sel(k, 80), rt.sel(kind, 6), rt.sel(days, 2), rt.sel(tdk, 3))
 
 
+LONELY = ['the-only-child-alone', 'the-only-child-then-its-parent', 'the-only-grandchild-then-the-grandparent', 'the-only-grandchild-alone']
+
+
+def _lonely(kind, shape, sp):
+    """the entry is the ONLY child of its directory (which becomes empty when it leaves); optionally that directory, or
+    the directory above it, is the next argument of the same run: it must be trashed like any other, not vanish"""
+    from harness import common as K
+    with rt.untraced():
+        rt.begin(('lonely', K.KINDS[kind], LONELY[shape], sp))
+        deep = 'grand' in LONELY[shape]
+        top = '/v/d/only'
+        parent = top + '/sub' if deep else top
+        nodes = [W.d('/h'), W.d('/v/d'), W.f('/v/d/keep', 'KEEP', 0o644, 800), W.d(top, 0o750)] + ([W.d(parent, 0o705)] if deep else [])
+        nodes += K.entry_nodes(K.KINDS[kind], parent + '/x', 1000) + K.sentinels('/v/out')
+        rel = parent[len('/v/d/'):] + '/x'
+        first = [rel, './' + rel, parent + '/x'][sp]
+        args = [first] + (['only'] if 'then' in LONELY[shape] else [])
+        m, res = scen.run_model(W.W(mounts=K.MOUNTS, cwd='/v/d', nodes=nodes), [{'snap': '/'}, C('put', ['--'] + args, scen.env(), cwd='/v/d'), {'snap': '/'}])
+        before, r, after = res
+        label = '%s:%s' % (K.KINDS[kind], LONELY[shape])
+        if r['exc']:
+            return rt.fail('C01:traceback:%s:lonely' % r['exc'].split(':')[0], r['exc'])
+        payload = scen.sub(before, parent + '/x')
+        where = [p for p in scen.find_equal(after, payload) if '/files/' in p]
+        if payload[0] == 'l' and not where:
+            where = [p for p, v in W.flatten(after).items() if v[0] == 'l' and v[1] == payload[1] and '/files/' in p]
+        if len(where) != 1 or scen.sub(after, parent + '/x') is not None:
+            return rt.fail('C01:half-trashed:only-child:' + label, 'the entry is at %r after the run; exit %r stderr %r' % (where, r['exit'], r['err'][-200:]))
+        if len(args) == 1:
+            for d in ([top, parent] if deep else [top]):
+                got = scen.sub(after, d)
+                if got is None or got[1] != scen.sub(before, d)[1]:
+                    return rt.fail('C01:changed-existing:emptied-parent-removed:' + label,
+                                   'trash-put %s: the directory %s that held the entry %s' % (first, d, 'is gone' if got is None else 'changed mode'))
+            if r['exit'] != 0:
+                return rt.fail('C01:failure-reported-but-trashed:entry:' + label, 'exit %r' % r['exit'])
+            return rt.ok()
+        # the directory named second: gone from its place, in the trash under files/only, recorded, exit 0
+        td = '/v/.Trash-1000'
+        if scen.sub(after, top) is not None or scen.sub(after, td + '/files/only') is None or scen.sub(after, td + '/info/only.trashinfo') is None or r['exit'] != 0:
+            state = 'in place' if scen.sub(after, top) is not None else ('in the trash' if scen.sub(after, td + '/files/only') is not None else 'NOWHERE')
+            return rt.fail('C01:half-trashed:data-lost:emptied-directory-named-next:' + label,
+                           'trash-put %s: the second argument /v/d/only is %s afterwards; exit %r stderr %r' % (' '.join(args), state, r['exit'], r['err'][-200:]))
+        if scen.sub(after, td + '/files/only')[1] != 0o750:
+            return rt.fail('C01:changed-existing:emptied-directory-named-next:' + label, 'mode of the trashed directory: %o' % scen.sub(after, td + '/files/only')[1])
+        return rt.ok()
+
+
+def w_lonely(kind: int, shape: int, sp: int) -> str:
+    """
+    pre: 0 <= kind < 6 and 0 <= shape < 4 and 0 <= sp < 3
+    post: _ == ''
+    """
+    return _lonely(rt.sel(kind, 6), rt.sel(shape, 4), rt.sel(sp, 3))
+
+
 def w_spell(kind: int, sp: int, mode: int) -> str:
     """
     pre: PARTITION is None or kind == PARTITION
@@ -385,6 +441,8 @@ def obligations(tier):
                   bounds='6 kinds x 6 names containing % ( ) { } quotes newline x -v count 0..2 x 3 --trash-dir x 3 spellings'))
     obs.append(CH('W_home_directory_names', MOD, 'w_home', timeout=600, partitions=list(range(6)), engine='W', regime='selector', encodes=PUT_FUNCS, stubs=STUBS,
                   bounds='6 kinds x 4 $HOME values containing ( [ + backslash space $ * x 3 --trash-dir x 4 fallback switches x -v or not'))
+    obs.append(CH('W_only_child_of_its_directory', MOD, 'w_lonely', timeout=300, engine='W', regime='selector', encodes=PUT_FUNCS, stubs=STUBS,
+                  bounds='the entry is the only child (or grandchild) of its directory x alone / followed by that directory as the next argument x 6 kinds x 3 spellings'))
     obs.append(CH('W_days_limited_empty_completes_while_put_runs', MOD, 'w_with_empty', timeout=900, partitions=[(d, t) for d in range(2) for t in range(3)], engine='W', regime='selector',
                   encodes=PUT_FUNCS + K_EMPTY, stubs=STUBS + ['replay-stepping scheduler (vf/sched.py)'],
                   bounds='trash-put preempted after k system calls, k in 0..79 (runs are shorter: checked), by a complete trash-empty DAYS (1 | 30) on the same trash directory; 6 kinds x 3 trash-dir situations',
